@@ -193,6 +193,11 @@ def c18_3(ctx, ss):
                 raise AnchorMissing(f"{cls_}.make_linefactor [{branch}]: the pair of mass names handed to make_lineshape was not found (`{txt(m)[:60]}`)")
             seq, bad = [], None
             for el in m.value.elts:
+                if isinstance(el, ast.JoinedStr):
+                    # a piece of the name built first and interpolated (f"{first_pair}_{k}") is spliced in
+                    import copy as _copy
+                    from ..core.match import _FlatF
+                    el = _FlatF().visit(_copy.deepcopy(el))
                 if not isinstance(el, ast.JoinedStr):
                     bad = el
                     break
